@@ -35,19 +35,38 @@ def _tests_in(path):
 
 
 def run_native_test(src, BUILD, crate, wfile, unit, names, timeout=3600):
-    tdir = os.path.join(src, crate, 'tests')
+    """Native runs use ONE shared copy of the tree (.build/native/src, re-synced from the property's copy under a
+    lock) and one target directory: a target directory shared between several source copies was observed to run
+    stale test binaries."""
+    import fcntl
+    ndir = os.path.join(BUILD, 'native')
+    os.makedirs(ndir, exist_ok=True)
+    lock = open(os.path.join(ndir, '.lock'), 'w')
+    fcntl.flock(lock, fcntl.LOCK_EX)
+    nsrc = os.path.join(ndir, 'src')
+    os.makedirs(nsrc, exist_ok=True)
+    # --checksum: only files whose CONTENT differs are touched, so cargo rebuilds exactly what changed
+    subprocess.run(['rsync', '-a', '--checksum', '--delete', '--exclude', '/target', '--exclude', '*/tests/verif_witness_*',
+                    src + '/', nsrc + '/'], check=True)
+    # harness lines appended for Kani must not leak into native builds
+    tdir = os.path.join(nsrc, crate, 'tests')
     os.makedirs(tdir, exist_ok=True)
     tname = 'verif_witness_' + _norm(os.path.basename(wfile)[:-3])
-    shutil.copy(wfile, os.path.join(tdir, tname + '.rs'))
+    dst = os.path.join(tdir, tname + '.rs')
+    new_text = open(wfile).read()
+    if not os.path.exists(dst) or open(dst).read() != new_text:
+        open(dst, 'w').write(new_text)
     env = dict(os.environ)
     env['CARGO_TARGET_DIR'] = os.path.join(BUILD, 'native-target')
     env['CARGO_NET_OFFLINE'] = 'true'
     env['RUST_BACKTRACE'] = '0'
     cmd = ['cargo', 'test', '--offline', '-p', crate, '--test', tname, '--', '--test-threads', '4'] + list(names)
     try:
-        p = subprocess.run(cmd, cwd=src, env=env, capture_output=True, text=True, timeout=timeout)
+        p = subprocess.run(cmd, cwd=nsrc, env=env, capture_output=True, text=True, timeout=timeout)
     except subprocess.TimeoutExpired:
+        fcntl.flock(lock, fcntl.LOCK_UN)
         return None, 'timeout', ' '.join(cmd)
+    fcntl.flock(lock, fcntl.LOCK_UN)
     out = p.stdout + '\n' + p.stderr
     res = {}
     for m in re.finditer(r'^test (w__\w+) \.\.\. (ok|FAILED)', out, re.M):
